@@ -115,6 +115,8 @@ set([E for x in S]) through the spec's `set`; `self.a, self.b = e` on state attr
 `substate` (a container built as a value is published into the heap: fails closed if the local name may change it afterwards);
 `return obj` of an owned object; Module.ref_types (opaque types that ARE references: storing one shares, _consume); f(*X)
 for a rendering marked `star` (_arg); truth value of an Optional str/list returned by a call (tr_opt_nonempty).
+`self.attr.f = e` on a state attribute holding an opaque object threaded by value, by the pure setter "<T>.@f=" (obj -> value -> obj):
+the state variable is rebound (C11: self._token_list.head_node = …).
 """
 import ast
 import os
@@ -132,7 +134,8 @@ ERR = {"ValueError": "ValueError", "KeyError": "KeyError", "TypeError": "TypeErr
        "OSError": "IOError", "ChangelogParseError": "ParseError",
        "ChangelogCreateError": "OtherError",    # Changelog/Model.v: opt_or_err (no kind of its own; err_kind says OtherError too)
        "EOFError": "OtherError",     # no kind of its own in Lib/Base.err: harness.core.err_kind reports it as OtherError too
-       "AmbiguousDeb822FieldKeyError": "KeyError"}      # _deb822_repro/_util.py: a subclass of KeyError
+       "AmbiguousDeb822FieldKeyError": "KeyError",      # _deb822_repro/_util.py: a subclass of KeyError
+       "RuntimeError": "OtherError"}     # no kind of its own: harness.core.err_kind reports it as OtherError (Repro/ListView.v: resolve)
 
 
 def ty_coq(t):
@@ -566,12 +569,16 @@ class FunTr:
     def _ref_truthy_ok(self, t, node):
         """An instance of the class is always truthy: the class defines neither __bool__ nor __len__ (and has no base
         class that could), checked in the source now."""
-        cls = (t[1] if t[0] == "option" else t)[1]
+        cls = (t[1] if t[0] == "option" else t)[1] if isinstance(t, tuple) else t
         cdefs = [n for n in self.mod.tree_.body if isinstance(n, ast.ClassDef) and n.name == cls]
         if len(cdefs) != 1:
             _bad("class %s: expected exactly one definition at module level" % cls, node)
         for b in cdefs[0].bases:
             if not (ast.unparse(b) == "object" or ast.unparse(b).startswith("Generic[")):
+                if isinstance(b, ast.Name) and b.id != cls and sum(
+                        1 for n in self.mod.tree_.body if isinstance(n, ast.ClassDef) and n.name == b.id) == 1:
+                    self._ref_truthy_ok(b.id, node)     # a base class defined in the same module: checked as well
+                    continue
                 _bad("truth value of a %s: base class %s" % (cls, ast.unparse(b)), node)
         for n in cdefs[0].body:
             names = [n.name] if isinstance(n, (ast.FunctionDef, ast.ClassDef)) else \
@@ -777,6 +784,9 @@ class FunTr:
             return "(tr_is_some %s)" % e.text if t[0] == "option" else "true"
         if isinstance(t, tuple) and t[0] == "option":
             inner = t[1]
+            if inner == "bool":
+                # Optional[bool]: None and False are falsy, only True is truthy
+                return "(tr_opt_true %s)" % e.text
             if inner in ("str", "strbuf", "Z", "bool", "char") or (isinstance(inner, tuple) and inner[0] in ("list", "iter", "option", "dict")):
                 # Some "" / Some 0 / Some [] are falsy in Python: `if x:` on such a value is not `x is not None`
                 _bad("truth value of an optional %r (None and the empty/zero value are both falsy); test `is None` "
@@ -1107,13 +1117,27 @@ class FunTr:
             ety = self._elem_ty(it.ty, g.iter)
             env2 = dict(env)
             env2[g.target.id] = ety
+            filter_raises = False
             if g.ifs:
                 conds = [self.cond(c, env2) for c in g.ifs]
                 if any(c.pre for c in conds):
-                    _bad("comprehension filter that may raise", n)
-                it = E(it.pre, "(tr_filter (fun %s => %s) %s)" % (
-                    cname(g.target.id), " && ".join(c.text for c in conds), it.text), ("list", ety))
+                    # a filter that may raise (a read through the heap, …) but does not touch the state: the elements are
+                    # tested in order (tr_filterM; several `if`s left to right, short-circuit); faithful only with an element
+                    # expression that cannot raise (otherwise its exceptions would interleave with the filter's): checked below
+                    if any(isinstance(m_, (StM, LetM)) for c in conds for _, m_ in c.pre):
+                        _bad("comprehension filter that may raise", n)
+                    ftxt = "Ok true"
+                    for c in reversed(conds):
+                        ftxt = wrap(c.pre, "(if %s then %s else Ok false)" % (c.text, ftxt))
+                    tf = self.tmp()
+                    it = E(it.pre + [(tf, "tr_filterM (fun %s => %s) %s" % (cname(g.target.id), ftxt, it.text))], tf, ("list", ety))
+                    filter_raises = True
+                else:
+                    it = E(it.pre, "(tr_filter (fun %s => %s) %s)" % (
+                        cname(g.target.id), " && ".join(c.text for c in conds), it.text), ("list", ety))
             body = self.expr(n.elt, env2)
+            if filter_raises and body.pre:
+                _bad("comprehension whose filter and element expression may both raise", n)
             x = cname(g.target.id)
             if any(isinstance(m_, StM) for _, m_ in body.pre) and self._hidden_state():
                 # the element expression calls a primitive on the (hidden) state: the elements are produced in order,
@@ -1331,6 +1355,12 @@ class FunTr:
                 b = self.expr(rn, env)
                 ra, rb = self._ref_class(a.ty), self._ref_class(b.ty)
                 if ra is None or rb is None or ra[0] is not rb[0]:
+                    # identity between values of two other types, as the spec renders it: key "is" (pure, two arguments)
+                    for g in [c_ for c_ in (lambda x_: x_ if isinstance(x_, list) else [x_])(self.mod.calls.get("is") or [])
+                              if isinstance(c_, Call) and len(c_.args) == 2 and not c_.monadic and not c_.mutates
+                              and not c_.substate and c_.ret == "bool" and c_.args[0] == a.ty and c_.args[1] == b.ty]:
+                        txt = "(%s %s %s)" % (g.coq, a.text, b.text)
+                        return E(a.pre + b.pre, "(negb %s)" % txt if isinstance(op, ast.IsNot) else txt, "bool")
                     _bad("`is` on %r and %r: only between references to objects of one declared class" % (a.ty, b.ty), n)
                 hc = ra[0]
                 if ra[1] or rb[1]:
@@ -1656,6 +1686,9 @@ class FunTr:
                 return E(sum((e.pre for e in es), []) + [(t, StM(app))], t, c.ret)
             if len(alts) == 1 and alts[0].substate:
                 # a function that runs on part of the caller's state (Call.substate), e.g. the heap: HEAP MODE
+                if n.keywords and alts[0].kw:
+                    # f(a, name=b) with Call.kw (keywords in parameter order, checked by _kw_slots): positional from here on
+                    return self._sub_call_expr(alts[0], list(self._kw_slots(n, alts[0])), env, n)
                 if n.keywords:
                     _bad("keyword arguments of %s" % key, n)
                 return self._sub_call_expr(alts[0], list(n.args), env, n)
@@ -2033,6 +2066,10 @@ class FunTr:
             if isinstance(d, tuple) and d[0] == "option" and all(v in e and same_repr(e[v], d[1]) and not same_repr(e[v], d)
                                                                  for e in envs):
                 out[v] = d[1]
+            # (Fun.retype) a name that has the SAME listed other type on every path into the join keeps it afterwards
+            for t in (getattr(self.fun, "retype", None) or {}).get(v, ()):
+                if v not in out and v not in self.stattr.values() and not same_repr(t, d) and all(v in e and e[v] == t for e in envs):
+                    out[v] = t
         return out
 
     def block(self, stmts, env, k, ctx):
@@ -2115,6 +2152,16 @@ class FunTr:
                         try:
                             self.pure(a, env)
                         except ExtractError:
+                            # … or ONE message argument that may raise while it is evaluated (`line[0]`): that exception
+                            # wins, as in Python (the message is evaluated before the exception object exists)
+                            if len(exc.args) == 1 and not exc.keywords:
+                                self.ntmp = saved_tmp
+                                try:
+                                    em = self.expr(a, env)
+                                except ExtractError:
+                                    em = None
+                                if em is not None and not any(isinstance(m_, StM) for _, m_ in em.pre):
+                                    return self.swrap(em.pre, self.err(ERR[key]))
                             _bad("exception message too complex to be known not to raise", s)
                         finally:
                             self.ntmp = saved_tmp
@@ -2327,6 +2374,18 @@ class FunTr:
                 env2 = self._consume(s.value, env, s, True)
                 return self.swrap(v.pre, "(let %s := %s %s %s in %s)" % (
                     cname(obj), g.coq, coerce(cname(obj), oty, g.args[0], s), coerce(v.text, v.ty, g.args[1], s), nxt(env2)))
+            if isinstance(t, ast.Attribute) and isinstance(t.value, ast.Attribute) and ast.unparse(t.value) in self.stattr:
+                # self.attr.f = e on a STATE ATTRIBUTE that holds an opaque object (a record threaded by value, e.g. the
+                # LinkedList inside a view), by the spec's pure setter "<T>.@f=": obj -> value -> obj — the state variable is
+                # rebound.  Python evaluates e first; the store itself cannot raise (a plain attribute: the spec author's claim).
+                sv = self.stattr[ast.unparse(t.value)]
+                oty = self.decl.get(sv)
+                g = self.mod.calls.get("<%s>.@%s=" % (oty[1], t.attr)) if isinstance(oty, tuple) and oty[0] == "coq" else None
+                if isinstance(g, Call) and len(g.args) == 2 and not g.monadic and not g.mutates and not g.substate \
+                        and same_repr(g.ret, g.args[0]) and same_repr(g.args[0], oty):
+                    v = self.expr(s.value, env, g.args[1])
+                    return self.swrap(v.pre, "(let %s := %s %s %s in %s)" % (
+                        cname(sv), g.coq, cname(sv), coerce(v.text, v.ty, g.args[1], s), nxt(env)))
             _bad("assignment target %s" % ast.unparse(t), s)
         if isinstance(s, ast.AugAssign):
             if isinstance(s.target, ast.Attribute) and ast.unparse(s.target) in self.stattr:
@@ -2409,6 +2468,21 @@ class FunTr:
             if meth == "write" and len(args) == 1 and oty == "strbuf":
                 e = self.expr(args[0], env, "str")
                 return self.swrap(e.pre, "(let %s := %s ++ %s in %s)" % (cname(obj), cname(obj), coerce(e.text, e.ty, "str", s), nxt(env)))
+            if meth == "extend" and len(args) == 1 and not s.value.keywords and isinstance(oty, tuple) and oty[0] == "list" \
+                    and obj in self.fun.locals and isinstance(args[0], (ast.GeneratorExp, ast.ListComp)):
+                # L.extend(<comprehension / generator expression>) on a LOCAL list: the items are produced first, left to
+                # right (an exception among them leaves L partly extended, which nothing can see: no handler in this
+                # function covers a statement that rebinds a local, _try), then appended
+                a0 = args[0]
+                if isinstance(a0, ast.GeneratorExp):
+                    a0 = ast.copy_location(ast.ListComp(elt=a0.elt, generators=a0.generators), a0)
+                e = self.expr(a0, env, oty)
+                return self.swrap(e.pre, "(let %s := %s ++ %s in %s)" % (cname(obj), cname(obj), coerce(e.text, e.ty, oty, s), nxt(env)))
+            if meth == "extend" and len(args) == 1 and not s.value.keywords and isinstance(oty, tuple) and oty[0] == "list" \
+                    and obj in self.fun.locals and isinstance(args[0], ast.Name) and args[0].id in env \
+                    and same_repr(env[args[0].id], oty) and args[0].id != obj:
+                # L.extend(M) for another list variable M (copied element by element; cannot raise)
+                return "(let %s := %s ++ %s in %s)" % (cname(obj), cname(obj), cname(args[0].id), nxt(env))
             _bad("statement %s" % ast.unparse(s) + getattr(self, "_heap_stmt_err", ""), s)
         if isinstance(s, ast.If):
             return self._if(s, rest, env, k, ctx)
@@ -2576,7 +2650,7 @@ class FunTr:
         if sum(1 for b_, _ in branches if self.falls_through(b_)) >= 2:
             asg = [x] + sum((self.assigned(b_) for b_, _ in branches), [])
             owned = any(self._owned_type(t_) for t_ in self.decl.values())
-            ends = self._probe(branches, ctx) if (self.fun.narrow or self.fun.join_defines or owned) else []
+            ends = self._probe(branches, dict(ctx, reraise=ev)) if (self.fun.narrow or self.fun.join_defines or owned) else []
             narrowed = self._narrowed(ends, asg) if self.fun.narrow else None
             fresh = tuple(v for v in asg if v not in env and v in self.decl and ends and all(v in e_ for e_ in ends)) \
                 if self.fun.join_defines else ()
@@ -2589,7 +2663,7 @@ class FunTr:
         cases = ""
         for h, sure, maybe in arms:
             if sure:
-                cases += "| %s => %s " % (" | ".join(sure), self.block(list(h.body), env, kk, ctx_b))
+                cases += "| %s => %s " % (" | ".join(sure), self.block(list(h.body), env, kk, dict(ctx_b, reraise=ev)))
             if maybe:
                 cases += "| %s => %s " % (" | ".join(maybe), self.err("OutOfFuel"))
         return "(%smatch %s with Ok %s => (%s%s) | Err %s => (match %s with %s| _ => %s end) end)" % (
@@ -3225,7 +3299,15 @@ class FunTr:
         ctx_else = ctx if not kxpar else {c: v for c, v in ctx.items() if c not in ("cont", "brk")}
         k_else = lambda e: self.block(s.orelse, e, after_in, ctx_else)   # noqa: E731  (exhausted: else-block, then what follows)
         if uses_break:
-            kpfx, kbrk = self.join(env_in, vs, after_in, {v: env_in[v] for v in vs if env_in[v] != self.declared(v)})
+            # (Fun.join_defines, opt-in) `for …: if c: x = …; break` / `else: raise …`: the code after the loop is reached
+            # through `break` only, so a declared variable that the body binds before EVERY break is defined there (it is
+            # handed to the exit continuation; a break path without it fails closed in join; it is no loop state)
+            brk_fresh = []
+            if self.fun.join_defines and s.orelse and isinstance(s.orelse[-1], (ast.Raise, ast.Return)):
+                used_after = {m.id for r_ in rest for m in ast.walk(r_) if isinstance(m, ast.Name)}
+                brk_fresh = [v for v in self.assigned(s.body) if v not in env_in and v in self.decl and v in used_after]
+            kpfx, kbrk = self.join(env_in, list(vs) + brk_fresh, after_in,
+                                   {v: env_in[v] for v in vs if env_in[v] != self.declared(v)}, fresh=brk_fresh)
             k_exh = lambda e: self.block(s.orelse, e, kbrk, ctx_else)   # noqa: E731
         else:
             kpfx, kbrk, k_exh = "", after_in, k_else
@@ -3320,6 +3402,12 @@ class FunTr:
         # parameter): the translation is the function called WITHOUT them — they are bound to their defaults below
         kwonly_ok = bool(a.kwonlyargs) and all(d_ is not None for d_ in a.kw_defaults) \
             and all(x.arg in self.fun.locals for x in a.kwonlyargs)
+        # … or when ALL of them are spec parameters, listed after the positional ones in the order of the `def` (callers
+        # give them by keyword: Call.kw)
+        kwonly_params = bool(a.kwonlyargs) and not kwonly_ok and not a.vararg and not a.kwarg \
+            and [p for p, _ in self.fun.params][-len(a.kwonlyargs):] == [x.arg for x in a.kwonlyargs]
+        if kwonly_params:
+            kwonly_ok = True
         if (a.kwonlyargs and not kwonly_ok) or a.posonlyargs or ((a.vararg or a.kwarg) and not self._forwards_only()):
             _bad("unsupported parameter kinds in %s" % self.fun.qual, self.node)
         # aliasing: `x = y` between mutable lists of which one is later mutated in place cannot be rendered by values
@@ -3355,13 +3443,15 @@ class FunTr:
         names = [x.arg for x in a.args]
         if self.fun.skip_first:
             names = names[1:]
+        if kwonly_params:
+            names = names + [x.arg for x in a.kwonlyargs]
         # parameters with defaults may be left out of the spec only if they are trailing (then the default is used)
         spec_names = [p for p, _ in self.fun.params]
         if names[:len(spec_names)] != spec_names:
             _bad("parameters of %s are %r, the spec says %r" % (self.fun.qual, names, spec_names), self.node)
         extra = names[len(spec_names):]
         defaults = dict(zip([x.arg for x in a.args][len(a.args) - len(a.defaults):], a.defaults))
-        if kwonly_ok:
+        if kwonly_ok and not kwonly_params:
             extra = extra + [x.arg for x in a.kwonlyargs]
             defaults.update({x.arg: d_ for x, d_ in zip(a.kwonlyargs, a.kw_defaults)})
         env = {p: t for p, t in self.fun.ghost}
